@@ -74,6 +74,12 @@ def run(ctx, idx):
             return e.args[1].value
         return None
 
+    def find_args(e):
+        """find_argument(node, "X", "Y") -> ["X", "Y"] (the names in the order requested; who wins is decided under ::find_argument)"""
+        if isinstance(e, ast.Call) and len(e.args) > 2 and all(isinstance(a_, ast.Constant) and isinstance(a_.value, str) for a_ in e.args[1:]) and isinstance(e.args[0], ast.Name) and e.args[0].id == loopvar:
+            return [a_.value for a_ in e.args[1:]]
+        return None
+
     # name
     e = args.get("command")
     ok = isinstance(e, ast.Call) and isinstance(e.func, ast.Attribute) and e.func.attr == "get" and idx.qualname(fi.module, e.func.value, fi) == "mpilot.utils.EEMS_COMMANDS" and len(e.args) == 2 and is_node_attr(e.args[0], "command") and is_node_attr(e.args[1], "command")
@@ -94,7 +100,10 @@ def run(ctx, idx):
 
     if isinstance(e, ast.BoolOp) and isinstance(e.op, ast.Or):
         for v in flat_or(e):
-            order.append("own" if is_node_attr(v, "result_name") else find_arg(v))
+            if find_args(v):
+                order.extend(find_args(v))
+            else:
+                order.append("own" if is_node_attr(v, "result_name") else find_arg(v))
     ok = order == ["own", "NewFieldName", "InFieldName"]
     if not ok and not order:
         # not an `a or b or c` chain (e.g. a loop over the candidate argument names): the order of the sources is not
@@ -207,6 +216,8 @@ def run(ctx, idx):
                 for v in flat_or(inner):
                     if is_node_attr(v, "result_name"):
                         absent.add("own result name")
+                    elif find_args(v):
+                        absent.update(find_args(v))
                     elif find_arg(v):
                         absent.add(find_arg(v))
         need = {"own result name", "NewFieldName", "InFieldName"}
@@ -225,10 +236,28 @@ def run(ctx, idx):
             if isinstance(d_, ast.Constant) and d_.value is None:
                 none_params.add(p_.arg)
         rets = [n for n in own_nodes(fa.node) if isinstance(n, ast.Return) and not (n.value is None or isinstance(n.value, ast.Constant) and n.value.value is None or (isinstance(n.value, ast.Name) and n.value.id in none_params))]
-        ok = len(rets) == 1 and K.src(rets[0].value).endswith(".value.value")
-        tests = [n for n in own_nodes(fa.node) if isinstance(n, ast.If)]
-        ok = ok and len(tests) == 1 and isinstance(tests[0].test, ast.Compare) and isinstance(tests[0].test.ops[0], ast.Eq) and K.src(tests[0].test.left).endswith(".name")
-        ctx.ob("C16.b", "%s::find_argument" % fi.key, utils.rel, fa.node.lineno, ok, "returns the value of the argument whose name matches" if ok else "find_argument does not return the value of the argument whose name equals the requested one")
+        names_param = fa.node.args.vararg.arg if fa.node.args.vararg is not None else None
+        if names_param is not None:
+            # several names in one call: which one wins must be decided by the order of the names, not by the order the arguments
+            # are written in the file
+            loops = [n for n in own_nodes(fa.node) if isinstance(n, ast.For)]
+            over_args = [lp for lp in loops if not (isinstance(lp.iter, ast.Name) and lp.iter.id == names_param)]
+            over_names = [lp for lp in loops if isinstance(lp.iter, ast.Name) and lp.iter.id == names_param]
+            leaves_in_arg_loop = [lp for lp in over_args if any(isinstance(x, (ast.Return, ast.Break)) for st in lp.body for x in ast.walk(st))]
+            collects = [n for lp in over_args for n in ast.walk(lp) if isinstance(n, ast.Assign) and len(n.targets) == 1 and isinstance(n.targets[0], ast.Subscript) and K.src(n.targets[0].slice).endswith(".name") and K.src(n.value).endswith(".value.value")]
+            first_only = all(any(isinstance(t_, ast.Compare) and isinstance(t_.ops[0], ast.NotIn) and K.src(t_.left).endswith(".name") for iff in ast.walk(lp) if isinstance(iff, ast.If) for t_ in ast.walk(iff.test)) for lp in over_args) if collects else False
+            if leaves_in_arg_loop:
+                ok, why = False, "find_argument(node, *names) walks the arguments and stops at the first one whose name is among the requested names: the argument written first in the file wins, not the name requested first (READ(InFieldName=A, NewFieldName=B) is named A)"
+            elif over_names and collects and first_only:
+                ok, why = True, "the first value of each requested name is collected, then the names are tried in the order requested"
+            else:
+                raise AnalysisError("C16.b: find_argument takes several names in a form the analyser cannot decide")
+        else:
+            ok = len(rets) == 1 and K.src(rets[0].value).endswith(".value.value")
+            tests = [n for n in own_nodes(fa.node) if isinstance(n, ast.If)]
+            ok = ok and len(tests) == 1 and isinstance(tests[0].test, ast.Compare) and isinstance(tests[0].test.ops[0], ast.Eq) and K.src(tests[0].test.left).endswith(".name")
+            why = "returns the value of the argument whose name matches" if ok else "find_argument does not return the value of the argument whose name equals the requested one"
+        ctx.ob("C16.b", "%s::find_argument" % fi.key, utils.rel, fa.node.lineno, ok, why)
     # ---- c
     fs = idx.func("mpilot.program", "Program.from_source")
     cfg = K.cfg_of(idx, fs)
@@ -289,6 +318,37 @@ def run(ctx, idx):
     con = "mpilot/parser/parser.py::Parser::version-flag"
     ok = bool(true_sets)
     why = "version flag never set"
+    pp0 = pcls.methods.get("p_program")
+    if not setters and pp0 is not None:
+        # no parser state at all: the version is read off the parsed commands. A command has no result name exactly when the
+        # result-less production built it, so "some command has no result name" is the same fact the flag recorded.
+        parg0 = pp0.node.args.args[-1].arg
+        verdict = None
+        for c_ in own_nodes(pp0.node):
+            if isinstance(c_, ast.Call) and K.src(c_.func).endswith("ProgramNode"):
+                v_ = next((k.value for k in c_.keywords if k.arg == "version"), c_.args[1] if len(c_.args) > 1 else None)
+                v_ = K.expand(pp0, v_) if v_ is not None else None
+                if isinstance(v_, ast.IfExp) and isinstance(v_.body, ast.Constant) and isinstance(v_.orelse, ast.Constant):
+                    t_ = v_.test
+                    two_if_true = (v_.body.value, v_.orelse.value) == (2, 3)
+                    three_if_true = (v_.body.value, v_.orelse.value) == (3, 2)
+                    whole = isinstance(t_, ast.Call) and isinstance(t_.func, ast.Name) and t_.func.id in ("any", "all") and len(t_.args) == 1 and isinstance(t_.args[0], (ast.GeneratorExp, ast.ListComp)) and K.src(t_.args[0].generators[0].iter).replace(" ", "") == "%s[1]" % parg0 and not t_.args[0].generators[0].ifs
+                    if whole:
+                        e_ = t_.args[0].elt
+                        is_none = isinstance(e_, ast.Compare) and len(e_.ops) == 1 and K.src(e_.left).endswith(".result_name") and isinstance(e_.comparators[0], ast.Constant) and e_.comparators[0].value is None
+                        if is_none and isinstance(e_.ops[0], ast.Is) and t_.func.id == "any" and two_if_true:
+                            verdict = (True, "version 2 iff some parsed command has no result name (what the result-less production builds)")
+                        elif is_none and isinstance(e_.ops[0], ast.IsNot) and t_.func.id == "all" and three_if_true:
+                            verdict = (True, "version 3 iff every parsed command has a result name")
+                        elif is_none:
+                            verdict = (False, "p_program derives the version from `%s`, which is not `2 iff some command has no result name`" % K.src(v_)[:70])
+                    elif ".result_name" in K.src(t_):
+                        verdict = (False, "p_program looks at `%s` only: a file whose EEMS 2.0 commands come after an MPilot-style first command is taken for an MPilot file and not converted" % K.src(t_)[:60])
+        if verdict is None:
+            raise AnalysisError("C16.c: the parser keeps no EEMS 2.0 flag and the version p_program reports is outside the recognised forms")
+        ctx.ob("C16.c", con, pmod.rel, pp0.node.lineno, verdict[0], verdict[1])
+        parser_state(ctx, idx, "C16.c")
+        return
     for m, n in true_sets:
         doc = ast.get_docstring(m.node) or ""
         prods = [ln.strip() for ln in doc.splitlines() if ln.strip()]
